@@ -238,6 +238,9 @@ type runner struct {
 	cnt int
 	log []string
 	dbg string // what the first *Debugging value seen by a provider says
+	// the listed-last function when it is the final function for certain: as a Reflective it returns
+	// values built with reflect.ValueOf (dynamic types, not the interface types Out() declares)
+	finalPid int
 }
 
 // seeDebugging records the Debugging value handed to a provider (once per case).
@@ -308,6 +311,18 @@ func mkval(tc int, failing bool, pid, s int) reflect.Value {
 	return pt.mk(pid, s)
 }
 
+// undeclared marks the values inner() handed back whose type is not the type that the wrapper
+// declared for that result (a Go function is always handed the declared types: empty on /repo).
+func undeclared(r []reflect.Value, tcs []int) string {
+	s := ""
+	for i, v := range r {
+		if i < len(tcs) && v.IsValid() && v.Type() != tcToPool[tcs[i]].t {
+			s += fmt.Sprintf("!%d", i)
+		}
+	}
+	return s
+}
+
 func (rn *runner) makeProvider(p *cprovider) any {
 	var fn any
 	switch p.shape {
@@ -328,6 +343,13 @@ func (rn *runner) makeProvider(p *cprovider) any {
 				outs[i] = mkval(tc, failing, p.pid, s)
 			}
 			rn.logf("C%d%s>%s", p.pid, showVals(in), showVals(outs))
+			if p.annots&aReflective != 0 && p.pid == rn.finalPid {
+				for i, v := range outs {
+					if v.Kind() == reflect.Interface && !v.IsNil() {
+						outs[i] = v.Elem()
+					}
+				}
+			}
 			return outs
 		}
 		if p.annots&aReflective != 0 {
@@ -363,7 +385,7 @@ func (rn *runner) makeProvider(p *cprovider) any {
 					r = in[0].Call(iargs)
 				}
 				rn.mu.Lock()
-				rn.logf("J%d.%d%s", p.pid, k, showVals(r))
+				rn.logf("J%d.%d%s%s", p.pid, k, showVals(r), undeclared(r, p.innerOuts))
 				rn.mu.Unlock()
 				last = r
 			}
@@ -383,6 +405,15 @@ func (rn *runner) makeProvider(p *cprovider) any {
 				}
 			}
 			rn.logf("L%d%s", p.pid, showVals(rets))
+			if p.annots&aReflective != 0 {
+				// a Reflective builds its results with reflect.ValueOf: they carry their dynamic type,
+				// not the interface type that Out() declares
+				for i, v := range rets {
+					if v.Kind() == reflect.Interface && !v.IsNil() {
+						rets[i] = v.Elem()
+					}
+				}
+			}
 			return rets
 		}
 		if p.annots&aReflective != 0 {
@@ -464,6 +495,13 @@ func annotate(p *cprovider, x any) any {
 func (rn *runner) buildItems(c *ccase, idToPid map[int32]int) []any {
 	var items []any
 	i := 0
+	rn.finalPid = 0
+	if n := len(c.provs); n > 0 {
+		if l := c.provs[n-1]; l.shape == 2 && l.rep == 0 && l.bef == 0 && l.aft == 0 &&
+			l.annots&(aNonFinal|aReorder|aMemoize|aSingleton|aCacheable|aMustCache) == 0 && !containsInt(l.outs, tcOf(pTerminal)) {
+			rn.finalPid = l.pid
+		}
+	}
 	for i < len(c.provs) {
 		p := c.provs[i]
 		if c.regroup != 0 && p.cluster == 0 {
